@@ -140,7 +140,15 @@ def scan_forbidden():
     return hits
 
 
-def check_proofs(pid, force=True):
+def run_coqchk(pid):
+    """Independent re-check of the compiled property library and everything it depends on."""
+    rc, out = sh("timeout 1500 coqchk -o -silent -Q . PL PL.Properties.%s" % pid, cwd=COQ, timeout=1600)
+    m = re.search(r"\* Axioms:\s*(.*?)\n\s*\n", out, re.S)
+    axioms = m.group(1).strip() if m else "?"
+    return rc == 0 and axioms == "<none>", "coqchk rc=%d axioms=%s" % (rc, axioms.replace("\n", " ")[:300])
+
+
+def check_proofs(pid, force=True, coqchk=False):
     """Builds Properties/<pid>.vo (forcing a re-check of the statements file),
     returns dict(ok, obligations, discharged, assumptions, log, failed)."""
     res = dict(ok=False, obligations=0, discharged=0, assumptions=[], log="", failed=None, theorems=[])
@@ -192,6 +200,12 @@ def check_proofs(pid, force=True):
             return res
         if closed + (1 if axioms else 0) < n_print and not axioms:
             res["failed"] = "could not read Print Assumptions output"
+            return res
+    if coqchk:
+        ok, note = run_coqchk(pid)
+        res["coqchk"] = note
+        if not ok:
+            res["failed"] = "coqchk: " + note
             return res
     res["discharged"] = len(thms)
     res["ok"] = True
